@@ -57,6 +57,13 @@ func runC18(c *core.Ctx) {
 	t := c.T
 	loop := core.NewLoop(c, 400)
 	epoch := drawEpoch(t)
+	// receiver-side history: one long-lived struct decoded into again and again (half of the runs), and the
+	// value the application kept from the previous packet
+	reuseRx := t.Bool()
+	var rxCT, prevCT rtp.AbsCaptureTimeExtension
+	var prevCap time.Time
+	var prevOff *time.Duration
+	havePrev := false
 	n := 1 + t.Intn(24)
 	const tick = 3815 // ~2^-18 s in ns (rounded up)
 	const wrap = int64(64_000_000_000)
@@ -184,6 +191,7 @@ func runC18(c *core.Ctx) {
 			var offGot *time.Duration
 			var err error
 			rereadDiffers := false
+			keptChanged := false
 			if c.Guard("rtp.AbsSendTimeExtension.Estimate", func() {
 				if err = rp.Unmarshal(img); err != nil {
 					return
@@ -193,12 +201,29 @@ func runC18(c *core.Ctx) {
 					return
 				}
 				est = st.Estimate(recvT)
-				var ct rtp.AbsCaptureTimeExtension
+				var fresh rtp.AbsCaptureTimeExtension
+				ct := &fresh
+				if reuseRx {
+					ct = &rxCT // a read loop decoding every packet into the same struct
+				}
 				if err = ct.Unmarshal(rp.GetExtension(2)); err != nil {
 					return
 				}
 				capGot = ct.CaptureTime()
 				offGot = ct.EstimatedCaptureClockOffsetDuration()
+				if havePrev {
+					// what the application kept (by value) from the previous packet must not move
+					pc, po := prevCT.CaptureTime(), prevCT.EstimatedCaptureClockOffsetDuration()
+					if pc != prevCap || (po == nil) != (prevOff == nil) || (po != nil && *po != *prevOff) {
+						keptChanged = true
+					}
+				}
+				prevCT, prevCap, havePrev = *ct, capGot, true
+				prevOff = nil
+				if offGot != nil {
+					v := *offGot
+					prevOff = &v
+				}
 				// reading is not supposed to change what is read: a second read, and the wire form afterwards
 				again := ct.EstimatedCaptureClockOffsetDuration()
 				after, _ := ct.Marshal()
@@ -213,6 +238,10 @@ func runC18(c *core.Ctx) {
 			}
 			if err != nil {
 				c.Violate("wire", "C18/wire/decode-error", "the receiver could not decode the stamped packet: %v", err)
+				return
+			}
+			if keptChanged {
+				c.Violate("offset", "C18/kept-result-changed-by-later-decode", "an AbsCaptureTimeExtension value kept from the previous packet reads differently after the next packet was decoded (receiver struct reused: %v)", reuseRx)
 				return
 			}
 			if rereadDiffers {
@@ -261,6 +290,11 @@ func runC18(c *core.Ctx) {
 					c.Violate("offset", "C18/offset/"+what, "capture clock offset %d ns comes back as %d ns", int64(off), int64(*offGot))
 					return
 				}
+			} else if offGot != nil && reuseRx {
+				// A reused AbsCaptureTimeExtension keeps the offset of an earlier packet when it decodes an
+				// extension without one (Unmarshal does not clear the field). The statement is about offsets that
+				// were GIVEN; what a reused struct reports when none was sent is outside it: observed, not flagged.
+				c.Probe("reused-receiver-keeps-stale-offset")
 			} else if offGot != nil {
 				c.Violate("offset", "C18/offset/spurious", "a clock offset came back although none was sent")
 				return
